@@ -122,6 +122,65 @@ fn check_cycles<T: Scalar>(spec: &Spec, period: usize, len: usize, st: &mut Stat
     }
 }
 
+/// structured pairs of streams for windows a pair-letter tree cannot fill
+fn structured_pairs<T: Scalar>(spec: &Spec, len: usize, st: &mut Stats, sink: &Sink) {
+    if build_or_report::<T>("C10", spec, sink).is_none() {
+        return;
+    }
+    st.configs += 1;
+    let n = spec.n;
+    let xs: Vec<Box<dyn Fn(usize) -> f64>> = vec![
+        Box::new(|i| if i == 0 { 1.0 } else { 0.0 }),
+        Box::new(move |i| if i == n / 2 { -1.0 } else { 0.0 }),
+        Box::new(move |i| if i < n { 0.0 } else { 1.0 }),
+        Box::new(|i| i as f64),
+    ];
+    let ys: Vec<Box<dyn Fn(usize) -> f64>> = vec![Box::new(|_| 1.0), Box::new(|i| if i % 2 == 0 { 1.0 } else { -1.0 }), Box::new(|_| 0.0)];
+    for fx in &xs {
+        for fy in &ys {
+            T::reset_arena();
+            let mut s = root::<T>(spec);
+            // letters index pairs in Z3 x Z3; here the streams are free-form, so drive the instances directly
+            for i in 0..len {
+                let (xf, yf) = (fx(i), fy(i));
+                let c0 = T::inexact();
+                let (x, y) = (T::of(xf), T::of(yf));
+                let r = guard(|| {
+                    s.x.update(x);
+                    s.y.update(y);
+                    for (k, (a, b)) in AB.iter().enumerate() {
+                        s.z[k].update(T::of(*a) * x + T::of(*b) * y);
+                    }
+                });
+                st.transitions += 2 + AB.len() as u64;
+                st.states += 1;
+                let hist: Vec<f64> = (0..=i).map(|j| fx(j)).collect();
+                if let Err(m) = r {
+                    sink.push(Violation::new("C10", spec, "panicked", T::NAME, &hist, m));
+                    return;
+                }
+                let (ox, oy) = (s.x.last(), s.y.last());
+                if T::inexact() > c0 {
+                    s.tainted = true;
+                }
+                for (k, (a, b)) in AB.iter().enumerate() {
+                    let oz = s.z[k].last();
+                    st.oracle_evals += 1;
+                    let want = match (ox, oy) {
+                        (Some(p), Some(q)) => Some(T::of(*a) * p + T::of(*b) * q),
+                        _ => None,
+                    };
+                    if ox.is_some() != oy.is_some() || !agrees(oz, want, 1e-9 * (1.0 + len as f64), s.tainted) {
+                        sink.push(Violation::new("C10", spec, "superposition", T::NAME, &hist, format!("x as listed, y = {:?}...: view({}x+{}y) = {} but {}view(x)+{}view(y) = {}", (0..4).map(|j| fy(j)).collect::<Vec<_>>(), a, b, show(oz), a, b, show(want))));
+                        return;
+                    }
+                }
+            }
+            st.traces += 1;
+        }
+    }
+}
+
 /// constant-stream clauses
 fn constants(spec: &Spec, st: &mut Stats, sink: &Sink) {
     st.configs += 1;
@@ -250,6 +309,18 @@ pub fn run(ctx: &Ctx) -> CheckOutput {
             check_cycles::<Q>(&spec, if quick { 2 } else { 3 }, 12, &mut st, &sink);
             JobOut { stats: st, viols: sink.take(), samples: vec![] }
         }));
+    }
+    // larger windows: structured streams (impulse, step, ramp against constant, alternating, zero)
+    for n in [9usize, 12, 16] {
+        for k in [Sma, Ema, Alma, Cumulative, SuperSmoother, CyberCycle] {
+            let spec = Spec::un(k, n, Spec::echo());
+            jobs.push(Box::new(move || {
+                let mut st = Stats::default();
+                let sink = Sink::new();
+                structured_pairs::<Q>(&spec, 2 * n + 12, &mut st, &sink);
+                JobOut { stats: st, viols: sink.take(), samples: vec![json!({"explorer":"LONG","scalar":"Q","view":spec.name(),"driver":"x in {impulse, step, ramp, late impulse} x y in {constant, alternating, zero}"})] }
+            }));
+        }
     }
     // constant streams, N up to 64
     let n_list: Vec<usize> = if quick { vec![1, 2, 3, 4, 5, 6, 7, 8, 9, 10, 12, 16, 20, 32, 48, 64] } else { (1..=64).collect() };
